@@ -140,6 +140,10 @@ def gen_cfg(rng):
         "jitter_ms": rng.choice([0, 30, 150, 600, 2500]),
         "late_pct": rng.choice([0, 10, 30, 100]),
         "et_instant": rng.random() < 0.3,
+        # the accepted forms of a record's event time: float `event_time_s`, Instant `event_time`, absent; "mix" draws the
+        # form per record so that late records of every form reach every late-event policy in one run (None: the
+        # per-scenario switches et_instant / et_none_pct decide, as before)
+        "et_form": rng.choice([None, "mix", "mix"]),
         "et_exact": rng.random() < 0.4,
         "et_none_pct": rng.choice([0, 0, 20, 100]),
         "strategy": strategy,
@@ -162,6 +166,24 @@ def gen_cfg(rng):
     # (fixes/C07-streaming-subnanosecond-interval.*) and is never generated; the regression inputs are
     # corpus/C07/eventlog-subnanosecond-retention-interval.json and
     # corpus/C07/streamprocessor-subnanosecond-watermark-interval.json.
+    return cfg
+
+
+def gen_cfg_wide(rng):
+    """maximum-coverage configuration: a processor for every (window kind x late-event policy) with a side output, event
+    times in every accepted form per record, a good share of records late beyond the allowed lateness"""
+    cfg = gen_cfg(rng)
+    long = cfg["end"] > 6
+    win = []
+    for k_i, kind in enumerate(WINDOWS):
+        for p_i, pol in enumerate(POLICIES):
+            if (k_i + p_i) % len(WINDOWS) == 0 or pol == "SIDE_OUTPUT":
+                w = _gen_window(rng, kind=kind, policy=pol, src="prod", long=long)
+                w["side"] = True
+                w["lateness_ms"] = rng.choice([0, dur_ms(rng, 1, 100)])
+                win.append(w)
+    win.insert(1, _gen_window(rng, src="cons", long=long))
+    cfg.update({"win": win, "et_form": "mix", "late_pct": rng.choice([30, 60]), "jitter_ms": rng.choice([600, 2500])})
     return cfg
 
 
@@ -276,9 +298,12 @@ def build(cfg, seed):
             out = []
             for proc in prod_procs:
                 ctx = {"key": key, "value": value}
-                if no_et:
+                form = None
+                if cfg.get("et_form") == "mix":
+                    form = self.rng.choice(["float", "instant", "instant", "none"])
+                if form == "none" or (form is None and no_et):
                     pass                                      # the processor uses its own clock
-                elif cfg["et_instant"]:
+                elif form == "instant" or (form is None and cfg["et_instant"]):
                     ctx["event_time"] = Instant.from_seconds(t_ms / 1000.0)
                 else:
                     ctx["event_time_s"] = t_ms / 1000.0
